@@ -1483,7 +1483,13 @@ def run_record(ctx, P):
         kw = {}
         if su.cipher_kind == "cbc":
             iv, padlen = wdir.observed_cbc_params(frag, n)
-            if padlen is None or (ver == (3, 0) and padlen >= su.block):
+            inner = n + (0 if etm else su.maclen)
+            if padlen is None or (ver == (3, 0) and padlen >= su.block) or \
+                    (inner + padlen + 1) % su.block or \
+                    inner + padlen + 1 + (su.block if ver >= (3, 2) else 0) \
+                    != len(frag) - (su.maclen if etm else 0):
+                # (also what a record protected under other keys than the
+                # prescribed ones looks like to the reference)
                 viol(ctx, "record_cbc_structure", prim, lc, w,
                      "CBC fragment length/padding invalid")
                 return
